@@ -7,6 +7,7 @@ M: Varint.tla; MC_Varint checks the eight varint laws exhaustively on the
 V: the Go driver calls every quicwire function on exhaustive small domains,
    boundaries and seeded values; Trace_Varint recomputes every result."""
 import vlib
+from checks import ages_common as ag
 
 
 def case_fields(e):
@@ -24,7 +25,9 @@ def run(ctx):
     n, files, cases = ctx.record_and_validate("varint", "Trace_Varint",
                                                describe=lambda e, c: "quicwire result differs from Varint.tla for %s" % vlib.json.dumps(c))
     distinct = len({vlib.json.dumps(c, sort_keys=True) for c in cases})
+    an, acases = ag.run(ctx, ['varint'])   # Ages.tla: every schedule of phases on one long-lived object, each phase scaled to n operations
     return ctx.finish({
+        **ag.coverage(an, acases),
         "traces_validated_against_impl": n,
         "evaluations": n,
         "distinct_nontrivial": distinct,
@@ -41,4 +44,6 @@ def run(ctx):
 
 
 def replay(ctx, path):
+    if vlib.json.load(open(path)).get("family") == "ages":
+        return ag.replay(ctx, path)
     return ctx.replay_case(path, "varint", "Trace_Varint")
